@@ -27,6 +27,10 @@ type C16Case struct {
 	Frag   string   `json:"frag,omitempty"`
 	W      *WCase   `json:"w,omitempty"`
 	MaxOps int      `json:"max_ops,omitempty"`
+	// Full > 0: the LZMA chunk with index Full-1 is filled to exactly FullSize
+	// compressed bytes (1<<16 is the largest size its header can state)
+	Full     int `json:"full,omitempty"`
+	FullSize int `json:"full_size,omitempty"`
 }
 
 var c16Prefixes = [][]string{{}, {"LRND"}, {"UD"}, {"LRND", "U"}, {"UD", "U"}}
@@ -85,7 +89,19 @@ func genC16(r *sim.Rng, tier string, idx int) *C16Case {
 				kinds = append(kinds, "end")
 			}
 		}
-		return &C16Case{Mode: "seq", Kinds: kinds, Seed: r.Uint64(), Reads: reads, Frag: frag, MaxOps: r.Range(1, 60)}
+		c := &C16Case{Mode: "seq", Kinds: kinds, Seed: r.Uint64(), Reads: reads, Frag: frag, MaxOps: r.Range(1, 60)}
+		if r.Chance(1, 25) {
+			var lz []int
+			for i, k := range kinds {
+				if k[0] == 'L' {
+					lz = append(lz, i)
+				}
+			}
+			if len(lz) > 0 {
+				c.Full, c.FullSize = sim.Pick(r, lz)+1, sim.Pick(r, []int{1 << 16, 1 << 16, 1<<16 - 1})
+			}
+		}
+		return c
 	case 1:
 		return &C16Case{Mode: "ctl", Kinds: sim.Pick(r, c16Prefixes), Ctl: r.Intn(256), Seed: r.Uint64(), Reads: reads, Frag: frag, MaxOps: r.Range(1, 30)}
 	}
@@ -129,6 +145,9 @@ func realiseC16(c *C16Case) (cs *refenc.ChunkSeq, legal bool, bad int) {
 		legal, bad = refenc.Legal(kinds)
 		return cs, legal, bad
 	}
+	if c.Full > 0 {
+		o.ForceCompressed = map[int]int{c.Full - 1: c.FullSize}
+	}
 	cs = refenc.Realise(r, kinds, o)
 	legal, bad = refenc.Legal(kinds)
 	return cs, legal, bad
@@ -161,6 +180,12 @@ func runC16(c *C16Case, x *sim.Ctx) *sim.Violation {
 		}
 	}
 	x.Nontrivial(1)
+	if c.Full > 0 && c.Full-1 < len(cs.Offsets) && len(cs.Stream) > cs.Offsets[c.Full-1]+4 {
+		o := cs.Offsets[c.Full-1]
+		if int(cs.Stream[o+3])<<8|int(cs.Stream[o+4]) == 0xFFFF {
+			x.Probe("compressed-chunk-of-exactly-64KiB")
+		}
+	}
 	if legal {
 		x.Count("legal-sequences", 1)
 	} else if bad < len(cs.Kinds) {
